@@ -30,6 +30,8 @@ struct Ctl {
     granted: Option<usize>,
     last_run: Option<usize>,
     events: Vec<(usize, u32, usize)>,
+    /// the subject returned (normally or by unwinding) - nothing more can happen
+    subject_done: bool,
 }
 
 static CTL: Mutex<Option<Ctl>> = Mutex::new(None);
@@ -106,6 +108,9 @@ pub fn run_schedule(prefix: &[usize], subject: impl FnOnce()) -> RunTrace {
         loop {
             let c = g.as_mut().unwrap();
             let quiescent = c.granted.is_none() && c.expected.map(|e| c.waiting.len() + c.finished.len() == e).unwrap_or(false);
+            if c.subject_done && c.granted.is_none() && c.waiting.is_empty() {
+                break; // the subject returned (e.g. it panicked before spawning anything)
+            }
             if quiescent {
                 if c.waiting.is_empty() {
                     break; // all workers finished
@@ -159,6 +164,13 @@ pub fn run_schedule(prefix: &[usize], subject: impl FnOnce()) -> RunTrace {
         (points, choices, err)
     });
     subject();
+    {
+        let mut g = CTL.lock().unwrap();
+        if let Some(c) = g.as_mut() {
+            c.subject_done = true;
+        }
+        CV.notify_all();
+    }
     let (points, choices, error) = controller.join().expect("controller thread");
     vh::set_yield_hook(None);
     let mut g = CTL.lock().unwrap();
